@@ -92,6 +92,17 @@ func (i *interpreter) zeroOf(pkg, name string) value {
 
 func errIface(i *interpreter, msg string) value { return i.newError(msg) }
 
+// ioSentinel returns this path's value of io.<name>.
+func (i *interpreter) ioSentinel(name string) value {
+	key := "io.sentinel." + name
+	if v, ok := i.ps.store[key]; ok {
+		return v
+	}
+	v := i.newError(map[string]string{"EOF": "EOF", "ErrUnexpectedEOF": "unexpected EOF", "ErrShortWrite": "short write", "ErrClosedPipe": "io: read/write on closed pipe"}[name])
+	i.ps.store[key] = v
+	return v
+}
+
 func registerEnvStubs(e *Engine) {
 	in := e.intr
 	const regoPkg = "github.com/open-policy-agent/opa/rego"
@@ -177,6 +188,15 @@ func registerEnvStubs(e *Engine) {
 		mp + "/internal/validator.Validate": func(fr *frame, a []value) value {
 			text, fail := libRes(fr, "validator.Validate")
 			if fail {
+				// which error: any error value, or one of the decoder's sentinels (truncated / empty data)
+				kind := fr.i.ps.choose(3)
+				fr.i.ps.inputs = append(fr.i.ps.inputs, &Input{Name: fr.i.ps.uniq("libErrKind"), Kind: "choice", Conc: int64(kind)})
+				switch kind {
+				case 1:
+					return tuple{"", fr.i.ioSentinel("ErrUnexpectedEOF")}
+				case 2:
+					return tuple{"", fr.i.ioSentinel("EOF")}
+				}
 				return tuple{"", errIface(fr.i, "stub: library failure")}
 			}
 			// the library's answer is a function of the texts it is given
@@ -227,6 +247,11 @@ func registerEnvStubs(e *Engine) {
 			env.errNotEx = i.newError("file does not exist")
 		}
 		return env.errNotEx
+	}
+	// sentinel errors of package io: one value per path, so that errors.Is / == see identity
+	for _, name := range []string{"EOF", "ErrUnexpectedEOF", "ErrShortWrite", "ErrClosedPipe"} {
+		name := name
+		externGlobals["io."+name] = func(i *interpreter, g *ssa.Global) value { return i.ioSentinel(name) }
 	}
 	externGlobals["os.Stderr"] = func(i *interpreter, g *ssa.Global) value {
 		var cell value = nativeObj{&fileHandle{std: 2}}
@@ -351,6 +376,23 @@ func registerEnvStubs(e *Engine) {
 		}
 		return ts
 	}
+	in["(*os.File).Read"] = func(fr *frame, a []value) value {
+		h := handleOf(a[0])
+		buf, _ := a[1].([]value)
+		if h.std != 0 {
+			return tuple{0, fr.i.ioSentinel("EOF")}
+		}
+		if h.off >= len(h.f.content) {
+			return tuple{0, fr.i.ioSentinel("EOF")}
+		}
+		n := 0
+		for n < len(buf) && h.off < len(h.f.content) {
+			buf[n] = sstr{ps: fr.i.ps}.byteVal(h.f.content[h.off])
+			n++
+			h.off++
+		}
+		return tuple{n, iface{}}
+	}
 	in["(*os.File).Write"] = func(fr *frame, a []value) value {
 		ts := bytesTerms(a[1])
 		writeTo(fr, handleOf(a[0]), ts)
@@ -402,12 +444,14 @@ func registerEnvStubs(e *Engine) {
 		name := ps.uniq("clock")
 		v := ps.newVar(name, 64)
 		ps.inputs = append(ps.inputs, &Input{Name: name, Kind: "int", Terms: []*smt.Term{v}, Width: 64})
-		lo := smt.BV(0, 64)
+		// the wall clock reads some instant of the present (after 2020-09-13), never before an earlier reading
+		const present = uint64(1_600_000_000) * 1_000_000_000
+		lo := smt.BV(present, 64)
 		if env.lastT != nil {
 			lo = env.lastT
 		}
 		// arbitrary non-decreasing instants (nanoseconds, bounded so that differences cannot wrap)
-		ps.assertPC(smt.And(smt.BvCmp(smt.OpBvSle, lo, v), smt.BvCmp(smt.OpBvSle, v, smt.BV(1<<40, 64))))
+		ps.assertPC(smt.And(smt.BvCmp(smt.OpBvSle, lo, v), smt.BvCmp(smt.OpBvSle, v, smt.BV(present+1<<40, 64))))
 		ps.model = nil
 		env.lastT = v
 		env.clockN++
